@@ -232,11 +232,10 @@ class BlockInterp(core.Interp):
           else:
             v = self.load(arr, full, And(g, inb), where)
             if inb is not True:
-              v = _orig_ite(inb, v, self._zero_like(arr))
+              zero = Vec([0 if v.dt == "i" else 0.0] * len(v.c), v.shape, v.dt) if isinstance(v, Vec) else self._zero_like(arr)
+              v = _orig_ite(inb, v, zero)
         else:
           v = self.load(arr, full, g, where)
-        if isinstance(v, Vec):
-          raise Unsupported("tile of vectors")
         out.append(v)
       return Tile(out, shape, "i" if arr.cell.dtype == "int" else "f")
     if key == "tile_store":
@@ -258,13 +257,15 @@ class BlockInterp(core.Interp):
           self.store(arr, full, t.at(*idx), gg, where)
       return None
     if key == "tile_map":
-      fn, tiles_ = a[0], a[1:]
-      if not tiles_ or not all(isinstance(t, Tile) for t in tiles_):
+      fn, margs = a[0], a[1:]
+      tiles_ = [t for t in margs if isinstance(t, Tile)]
+      if not tiles_:
         raise Unsupported("tile_map over non-tiles")
       if any(t.shape != tiles_[0].shape for t in tiles_):
         raise Unsupported("tile_map over tiles of different shapes")
-      out = [self._elem_call(fr, fn, [t.c[i] for t in tiles_], e) for i in range(len(tiles_[0].c))]
-      dt = "f" if any(core.kind(x) == "real" for x in out) else tiles_[0].dt
+      # non-tile arguments (scalars / vectors) are broadcast to every element
+      out = [self._elem_call(fr, fn, [(t.c[i] if isinstance(t, Tile) else t) for t in margs], e) for i in range(len(tiles_[0].c))]
+      dt = "f" if any((isinstance(x, Vec) and x.dt == "f") or (not isinstance(x, Vec) and core.kind(x) == "real") for x in out) else tiles_[0].dt
       return Tile(out, tiles_[0].shape, dt)
     if key == "tile_transpose":
       (t,) = a
